@@ -10,12 +10,14 @@ where
 {
     fn clone(&self) -> Self {
         let mut m = Self::new();
-        m.len = self.len;
         m.pairs
             .iter_mut()
             .zip(self.pairs[..self.len].iter())
             .for_each(|(dst, src)| unsafe {
                 dst.write(src.assume_init_ref().clone());
+                // count the slot only once it is written, so that a panicking
+                // `clone()` never leaves uninitialized slots inside `m.len`
+                m.len += 1;
             });
         m
     }
